@@ -445,7 +445,7 @@ func (g *gen) families18() {
 	}
 	// fault-free configuration first: every base through every reader
 	for _, b := range append(small, big...) {
-		for _, rd := range []string{"bytes", "file", "zip-store", "zip-deflate"} {
+		for _, rd := range []string{"bytes", "file", "zip-store", "zip-deflate", "file-fifo"} {
 			g.bytesCase("fault-free", b, nil, nil, rd, "")
 		}
 	}
